@@ -126,6 +126,28 @@ func (s Spec) bound(b string) *big.Rat {
 
 // Contains decides whether v is a lexical representation of a value of the
 // type.  settled=false: RFC 6020 does not decide.
+// LexicallyValid reports whether v is a lexical representation of the base
+// type at all (RFC 6020 9.2.1, 9.3.1), whatever its magnitude: such a value that
+// is rejected is rejected by the range restriction (the built-in bounds are the
+// outermost range), so a custom error-message / error-app-tag of the range
+// statement applies to it.  A '-' sign on an unsigned type is left open.
+func (s Spec) LexicallyValid(v string) bool {
+	switch s.Kind {
+	case "int":
+		return reInt.MatchString(v)
+	case "uint":
+		return reInt.MatchString(v) && !strings.HasPrefix(v, "-")
+	case "decimal64":
+		if !reDec.MatchString(v) {
+			return false
+		}
+		i := strings.IndexByte(v, '.')
+		return i < 0 || len(v)-i-1 <= s.Fd
+	}
+	ok, _ := (Spec{Kind: s.Kind, Bits: s.Bits, Fd: s.Fd}).Contains(v)
+	return ok
+}
+
 func (s Spec) Contains(v string) (ok bool, settled bool) {
 	switch s.Kind {
 	case "int", "uint":
